@@ -187,7 +187,7 @@ func genForm(r *hutil.Rand, form string) genLine {
 	user, addr, port := genUser(r), genAddr(r), genPort(r)
 	unk := "unknown"
 	switch form {
-	case "accepted_key", "accepted_cert":
+	case "accepted_key", "accepted_cert", "accepted_key_padded":
 		kt := hutil.Pick(r, keyTypes)
 		hn, fp := genFP(r)
 		line := fmt.Sprintf("Accepted publickey for %s from %s port %s ssh2: %s %s:%s", user, addr, port, kt, hn, fp)
@@ -204,6 +204,11 @@ func genForm(r *hutil.Rand, form string) genLine {
 			e.Data["Serial"] = serial
 			e.Data["CA"] = "CA " + ca
 			g.Cred = kid
+			g.Method = "SSHCertLogin"
+		}
+		if form == "accepted_key_padded" {
+			// text after the fingerprint that is not certificate information
+			line += hutil.Pick(r, []string{" and stuff", " x", " publickey", " ID broken", " (serial 5)"})
 			g.Method = "SSHCertLogin"
 		}
 		g.Line = line
@@ -297,6 +302,10 @@ var keywords = []string{"Accepted publickey", "Accepted password", "Certificate 
 	"ROOT LOGIN REFUSED FROM ", "Authentication refused for ", "Nasty PTR record \"", "reverse mapping checking getaddrinfo for ",
 	"Address ", "maximum authentication attempts exceeded for ", "Authentication key ", "Error checking authentication key ", "Failed password for "}
 
+// every form incl. the accepted-publickey line with trailing text that is not certificate
+// information (not one of the C06 forms; used by C05/C11/C19)
+var formNamesAll = append(append([]string{}, formNames...), "accepted_key_padded")
+
 // hostile / malformed lines: arbitrary bytes and systematic mutations of valid messages
 func genHostile(r *hutil.Rand) genLine {
 	base := genForm(r, hutil.Pick(r, formNames)).Line
@@ -321,8 +330,11 @@ func genHostile(r *hutil.Rand) genLine {
 		k := r.Intn(len(base) + 1)
 		return genLine{Form: "duplicated", Line: base[:k] + base}
 	case 5: // second accepted-publickey later in the line so that the match offset is > 0
-		g := genForm(r, "accepted_cert")
-		return genLine{Form: "second_accept", Line: "Accepted publickeyX" + hutil.Pick(r, []string{"", " ", " junk "}) + g.Line}
+		// (both a key-only message, whose match then runs to the very end of the line, and a
+		// certificate message with a tail after the match)
+		g := genForm(r, hutil.Pick(r, []string{"accepted_key", "accepted_cert", "accepted_key"}))
+		return genLine{Form: "second_accept", Line: hutil.Pick(r, []string{"Accepted publickeyX", "Accepted publickey ", "Accepted publickey for x ", "Accepted publickey"}) +
+			hutil.Pick(r, []string{"", " ", " junk "}) + g.Line}
 	case 6: // keyword followed by garbage
 		n := r.Intn(30)
 		b := make([]byte, n)
